@@ -37,6 +37,22 @@ def twice(x: int) -> int:
 
 def join(a: str, b: str) -> str:
     return a + b
+
+
+class Box:
+    def __init__(self) -> None:
+        self.items = [1, 2]
+
+    def size(self) -> int:
+        return len(self.items)
+
+
+def make_box() -> Box:
+    return Box()
+
+
+def label(flag: bool, name: str) -> str:
+    return name if flag else name.upper()
 '''
 
 _ENV = {}
@@ -351,6 +367,25 @@ def poke_clone(world, c, fits, covs, rng_bits):
         pass
 
 
+class only_change_mutation:
+    """mutate() draws delete / change / insert with the configured probabilities: switch delete and insert
+    off and make the change mutation certain (which statements it picks stays random)."""
+
+    def __enter__(self):
+        import pynguin.configuration as config
+
+        sa = config.configuration.search_algorithm
+        self.old = (sa.test_delete_probability, sa.test_change_probability, sa.test_insert_probability)
+        sa.test_delete_probability, sa.test_change_probability, sa.test_insert_probability = -1.0, 1.0, -1.0
+
+    def __exit__(self, *exc):
+        import pynguin.configuration as config
+
+        sa = config.configuration.search_algorithm
+        sa.test_delete_probability, sa.test_change_probability, sa.test_insert_probability = self.old
+        return False
+
+
 def apply_tc_op(world, ch, op, E):
     """Apply one test-level op to the real TestCaseChromosome.  Returns (ch', out, modelop).
     modelop: the abstract operation handed to the Coq model (real operators are abstracted to the
@@ -377,10 +412,13 @@ def apply_tc_op(world, ch, op, E):
             ch.changed = False
     elif name == "DropResult":
         ch.remove_last_execution_result()
-    elif name in ("Mutate", "CrossOver", "XOverOp"):
+    elif name in ("Mutate", "MutateChange", "CrossOver", "XOverOp"):
         try:
             if name == "Mutate":           # real TestCaseMutation through the real TestFactory
                 ch.mutate()
+            elif name == "MutateChange":   # mutate() with only the change mutation switched on
+                with only_change_mutation():
+                    ch.mutate()
             elif name == "CrossOver":      # real splice with a synthetic partner
                 other = TestCaseChromosome(mk_tc(op[1]), E["factory"])
                 ch.cross_over(other, op[2], op[3])
@@ -413,7 +451,15 @@ def run_tc_history(seed, salt, cons, init, ops, scratch, exc=False, chop=None, m
     set_unit(uexp)
     world = World(salt, cons, exc)
     world.code(mk_tc(0))
-    ch = TestCaseChromosome(mk_tc(init), E["factory"])
+    if init < 0:       # built by the real RandomLengthTestCaseFactory (calls on the SUT, literals, parameterless calls)
+        tcase = E["tc_factory"].get_test_case()
+        for _ in range(20):
+            if tcase.size() >= 2:
+                break
+            tcase = E["tc_factory"].get_test_case()
+    else:
+        tcase = mk_tc(init)
+    ch = TestCaseChromosome(tcase, E["factory"])
     init_code = world.code(ch.test_case)
     steps = []
     for op in ops:
@@ -508,6 +554,8 @@ def apply_suite_op(world, s, op, E):
     elif name == "AddTwice":
         t = TestCaseChromosome(mk_tc(op[1]), E["factory"])
         s.add_test_case_chromosomes([t, t])
+    elif name == "AddFactory":           # a member built by the real test case factory
+        s.add_test_case_chromosome(TestCaseChromosome(E["tc_factory"].get_test_case(), E["factory"]))
     elif name == "Add":
         s.add_test_case_chromosome(TestCaseChromosome(mk_tc(op[1]), E["factory"]))
     elif name == "AddMany":
@@ -518,10 +566,17 @@ def apply_suite_op(world, s, op, E):
     elif name == "Set":
         if s.size():
             s.set_test_case_chromosome(op[1] % s.size(), TestCaseChromosome(mk_tc(op[2]), E["factory"]))
-    elif name in ("Mutate", "MemberMutate", "CrossOver", "XOverOp"):
+    elif name in ("Mutate", "MemberMutate", "MemberMutateChange", "CrossOver", "XOverOp"):
         try:
             if name == "Mutate":
                 s.mutate()
+            elif name == "MemberMutateChange":
+                if s.size():
+                    t = s.test_case_chromosomes[op[1] % s.size()]
+                    with only_change_mutation():
+                        t.mutate()
+                    if t.changed:
+                        s.changed = True
             elif name == "MemberMutate":     # a member mutated the way TestSuiteMutation does it
                 if s.size():
                     t = s.test_case_chromosomes[op[1] % s.size()]
